@@ -9,7 +9,9 @@ EXPLANATION = (
     "of the first stage is read from that list or is yielded under equality with a list element (a remembered killer "
     "/ counter move that is not legal here can therefore never be yielded); (DEDUP) every yield after the first "
     "stage is guarded by inequality with the hash move; (STAGE) every stage assignment moves to a later stage, so no "
-    "stage is re-entered; (LOUD) the captures-only picker never enters a quiet-move stage."
+    "stage is re-entered; (LOUD) the captures-only picker never enters a quiet-move stage; (LOUDSET) every capture-"
+    "labelled constructor and the non-capturing queen promotion are emitted from the capture generator's cone only "
+    "(the only generator the captures-only picker runs), the remaining constructors from the quiet generator's only."
 )
 
 MP = "engine::search::move_picker::MovePicker"
@@ -22,6 +24,56 @@ def run(fx, rep, tier):
     rule_dedup(fx, rep, nxt, nbm)
     rule_stage(fx, rep, nxt)
     rule_loud(fx, rep, nxt)
+    rule_loudset(fx, rep, nxt)
+
+
+def rule_loudset(fx, rep, nxt):
+    """The captures-only picker runs the capture generator only. So every capture-labelled constructor (captures,
+    capturing promotions, en passant) and the non-capturing *queen* promotion must be emitted from the cone of
+    `generate_captures`, and nothing but those; the quiet generator emits the rest (seed C10-2)."""
+    gc, gq = fx.one("gen::generate_captures"), fx.one("gen::generate_quiets")
+    cc, cq = fx.cone([gc.name]), fx.cone([gq.name])
+    ok = True
+    n = 0
+    found_q_promo_in_caps = False
+    for b in fx.fn_bodies():
+        if not norm(b.name).startswith("chess::movegen::gen::") or "::tests::" in b.name:
+            continue
+        for bb, t in b.calls():
+            cn = norm(callee_name(t) or "")
+            if not cn.startswith("chess::moves::Move::"):
+                continue
+            ctor = cn.split("::")[-1]
+            if ctor not in ("capture", "quiet", "capture_promotion", "quiet_promotion", "en_passant", "castles"):
+                continue
+            in_c, in_q = b.name in cc, b.name in cq
+            kind = None
+            if ctor == "quiet_promotion":
+                e = deep_strip(b.expr(t["args"][2], expand_named=True, at=bb))
+                kind = e[1].split("::")[-1] if isinstance(e, tuple) and e and e[0] == "agg" and not e[2] else "?"
+            loud = ctor in ("capture", "capture_promotion", "en_passant") or (ctor == "quiet_promotion" and kind == "Queen")
+            if ctor == "quiet_promotion" and kind == "?":
+                # the kind is a parameter / loop variable: cannot tell which stage it belongs to
+                rep.notes.append(f"C10-LOUDSET: promotion kind at {b.name}:{t.get('line')} is not a constant; that site is not decided")
+                continue
+            n += 1
+            good = (in_c and not in_q) if loud else (in_q and not in_c)
+            if loud and ctor == "quiet_promotion" and good:
+                found_q_promo_in_caps = True
+            rep.obligation(good)
+            if not good:
+                ok = False
+                what = f"Move::{ctor}" + (f"({kind})" if kind else "")
+                rep.violation("C10-LOUDSET", f"C10-LOUDSET/{norm(b.name).split('::')[-1]}/{ctor}" + (f"/{kind}" if kind else ""),
+                              f"`{b.name}` line {t.get('line')} builds {what}, which is {'a loud move (capture / queen promotion) but is not emitted by the capture generator alone' if loud else 'a quiet move but is emitted by the capture generator'}: "
+                              f"the captures-only picker (quiescence) runs only generate_captures", {"fn": b.name, "file": b.file, "line": t.get("line")})
+    n += 1
+    rep.obligation(found_q_promo_in_caps)
+    if not found_q_promo_in_caps and ok:
+        ok = False
+        rep.violation("C10-LOUDSET", "C10-LOUDSET/queen-promotion", "no non-capturing queen promotion is emitted by the capture generator: the captures-only picker misses it", {"fn": gc.name, "file": gc.file, "line": gc.line})
+    # and the loud picker reaches generate_captures but never generate_quiets without only_captures being false: C10-LOUD
+    rep.rule("C10-LOUDSET", n, 15, ok, "loud constructors in the capture generator's cone only; quiet ones in the quiet generator's")
 
 
 def self_field(e, fld):
@@ -300,6 +352,8 @@ def rule_loud(fx, rep, nxt):
 
 M = "src/engine/search/move_picker.rs"
 MUTANTS = [
+    {"name": "capture generator emits the knight instead of the queen promotion push (shape of seed C10-2)", "expect": "C10-LOUDSET",
+     "edits": [("src/chess/movegen/gen.rs", "            moves.push(Move::quiet_promotion(\n                pawn,\n                target,\n                PromotionPieceKind::Queen,\n            ));", "            moves.push(Move::quiet_promotion(\n                pawn,\n                target,\n                PromotionPieceKind::Knight,\n            ));")]},
     {"name": "killer yielded without hash-move check", "expect": "C10-DEDUP/next",
      "edits": [(M, "                        if Some(killer1) != self.previous_best_move {\n                            return Some(killer1);\n                        }", "                        return Some(killer1);")]},
     {"name": "selection skips the hash-move test", "expect": "C10-DEDUP/next_best_move",
